@@ -72,11 +72,33 @@ class Effects:
                 if r2 is None:
                     return None
                 return r2[0], r2[1] + attrs
-            if scope_fn is fn and cfg is not None:
-                # follow a local alias `x = param.attr`
-                pass
+            if root in aliases:
+                r2 = aliases[root]
+                return r2[0], r2[1] + attrs
             return (root, attrs)
 
+        # local aliases of module-valued paths: names assigned exactly once in this scope to an attribute chain rooted at a
+        # parameter (or another such alias), e.g. `actor = policy.actor`, `policy__i2 = policy` (helper expansion)
+        aliases = {}
+        counts = {}
+        cands = {}
+        for st in ast.walk(scope_fn):
+            if isinstance(st, ast.Name) and isinstance(st.ctx, ast.Store):
+                counts[st.id] = counts.get(st.id, 0) + 1
+            if isinstance(st, ast.Assign) and len(st.targets) == 1 and isinstance(st.targets[0], ast.Name):
+                pth = expr_path(st.value)
+                if pth is not None:
+                    cands[st.targets[0].id] = pth
+        for _ in range(4):
+            for nm, (root, attrs) in cands.items():
+                if counts.get(nm) != 1 or nm in params or nm in rename:
+                    continue
+                if root in aliases:
+                    aliases[nm] = (aliases[root][0], aliases[root][1] + attrs)
+                elif root in params or root in rename:
+                    base = rename.get(root) if root in rename else (root, ())
+                    if base is not None:
+                        aliases[nm] = (base[0], base[1] + attrs)
         nested = {}
         for st in ast.walk(scope_fn):
             if isinstance(st, (ast.FunctionDef, ast.AsyncFunctionDef)) and st is not scope_fn:
